@@ -451,3 +451,194 @@ func TestVerifC11PeriodicFlush(t *testing.T) {
 		}
 	})
 }
+
+// "… when the size threshold is reached, on the periodic flush …" for the threshold and the interval
+// THIS executor was configured with (an option left out means the documented default: 1000 tasks /
+// 1 MiB, 1 s).  One case constructs two to four Bulk/Chunk executors one after the other, each with
+// its own generated subset of options, and probes each of them:
+//   - interval 1 h: one task less than the threshold is not executed (nothing in the statement
+//     triggers it; observed after a settle — on correct code this can never fail, whatever the
+//     timing), the task that reaches the threshold makes the whole batch execute (10 s verdict budget);
+//   - interval 2 ms: a single task below the threshold is executed by the timer (10 s budget);
+//   - default interval: a single task is not executed within the first 100 ms (asserted only if the
+//     harness itself was not stalled) and is executed within 10 s.
+// What an executor does must not depend on the options of executors built before or after it.
+func TestVerifC11Triggers(t *testing.T) {
+	logx.Disable()
+	st := verifkit.New("triggers")
+	defer st.Flush()
+	rapid.Check(t, func(t *rapid.T) {
+		st.Eval()
+		type cfg struct {
+			chunk     bool
+			tasksOpt  int // 0: default, else the configured threshold (tasks, or bytes/10 for chunk)
+			ivOpt     int // 0: default (1 s), 1: 1 h, 2: 2 ms
+			threshold int // effective threshold in units (tasks; chunk: units of `unit` bytes)
+			unit      int // chunk: bytes per task
+		}
+		type inst struct {
+			cfg
+			ex   exec
+			desc string
+		}
+		var mu sync.Mutex
+		execCnt := map[int]int{}
+		callback := func(tasks []any) {
+			mu.Lock()
+			for _, x := range tasks {
+				execCnt[x.(int)]++
+			}
+			mu.Unlock()
+		}
+		executed := func(ids []int) int {
+			mu.Lock()
+			defer mu.Unlock()
+			n := 0
+			for _, x := range ids {
+				if execCnt[x] > 0 {
+					n++
+				}
+			}
+			return n
+		}
+		n := rapid.IntRange(2, 4).Draw(t, "executors")
+		defaultIvUsed := false
+		var insts []*inst
+		var all strings.Builder
+		for i := 0; i < n; i++ {
+			var c cfg
+			c.chunk = rapid.Bool().Draw(t, "chunk")
+			switch rapid.IntRange(0, 3).Draw(t, "tasksOpt") {
+			case 0:
+			case 1:
+				c.tasksOpt = 5000
+			default:
+				c.tasksOpt = rapid.IntRange(1, 8).Draw(t, "threshold")
+			}
+			c.ivOpt = rapid.IntRange(0, 2).Draw(t, "intervalOpt")
+			if c.ivOpt == 0 {
+				if defaultIvUsed { // at most one probe that has to sit out the 1 s default
+					c.ivOpt = 1
+				}
+				defaultIvUsed = true
+			}
+			ivs := []time.Duration{0, time.Hour, 2 * time.Millisecond}
+			var x *inst
+			if c.chunk {
+				c.unit = 10
+				c.threshold = c.tasksOpt
+				var opts []executors.ChunkOption
+				if c.tasksOpt > 0 {
+					opts = append(opts, executors.WithChunkBytes(c.tasksOpt*c.unit))
+				} else {
+					c.unit, c.threshold = 1<<18, 4 // default 1 MiB
+				}
+				if c.ivOpt > 0 {
+					opts = append(opts, executors.WithFlushInterval(ivs[c.ivOpt]))
+				}
+				e := executors.NewChunkExecutor(callback, opts...)
+				x = &inst{cfg: c, ex: exec{func(id, size int) { e.Add(id, size) }, e.Flush, e.Wait}}
+			} else {
+				c.threshold = c.tasksOpt
+				var opts []executors.BulkOption
+				if c.tasksOpt > 0 {
+					opts = append(opts, executors.WithBulkTasks(c.tasksOpt))
+				} else {
+					c.threshold = 1000
+				}
+				if c.ivOpt > 0 {
+					opts = append(opts, executors.WithBulkInterval(ivs[c.ivOpt]))
+				}
+				e := executors.NewBulkExecutor(callback, opts...)
+				x = &inst{cfg: c, ex: exec{func(id, _ int) { e.Add(id) }, e.Flush, e.Wait}}
+			}
+			x.cfg = c
+			x.desc = fmt.Sprintf("#%d{chunk=%v threshold=%s interval=%s}", i, c.chunk,
+				map[bool]string{true: "default", false: fmt.Sprint(c.tasksOpt)}[c.tasksOpt == 0],
+				[]string{"default(1s)", "1h", "2ms"}[c.ivOpt])
+			insts = append(insts, x)
+			all.WriteString(x.desc + " ")
+		}
+		order := rapid.Permutation(seq(len(insts))).Draw(t, "probeOrder")
+		id := 0
+		await := func(x *inst, ids []int, what string) {
+			deadline := time.Now().Add(10 * time.Second)
+			for executed(ids) < len(ids) {
+				if time.Now().After(deadline) {
+					t.Fatalf("C11 VIOLATED (%s): executor %s: %d of %d tasks not executed within 10 s, no Flush/Wait was called; executors built in this order: %s",
+						what, x.desc, len(ids)-executed(ids), len(ids), all.String())
+				}
+				time.Sleep(200 * time.Microsecond)
+			}
+		}
+		for _, oi := range order {
+			x := insts[oi]
+			switch x.ivOpt {
+			case 1: // 1 h: only the size threshold can trigger
+				var ids []int
+				for k := 0; k < x.threshold-1; k++ {
+					id++
+					ids = append(ids, id)
+					x.ex.add(id, x.unit)
+				}
+				if len(ids) > 0 {
+					time.Sleep(15 * time.Millisecond)
+					if got := executed(ids); got > 0 {
+						t.Fatalf("C11 VIOLATED (tasks are executed when the size threshold is reached, on the periodic flush, on Flush or by Wait — none of which has happened): "+
+							"executor %s executed %d of the %d tasks added so far (threshold %d, interval 1 h); executors built in this order: %s",
+							x.desc, got, len(ids), x.threshold, all.String())
+					}
+				}
+				id++
+				ids = append(ids, id)
+				x.ex.add(id, x.unit)
+				await(x, ids, "every accepted task is passed to the execute callback when the size threshold is reached")
+				st.Class("probe:threshold")
+			case 2: // 2 ms
+				id++
+				x.ex.add(id, 1)
+				await(x, []int{id}, "every accepted task is passed to the execute callback on the periodic flush")
+				st.Class("probe:fast-interval")
+			default: // default interval
+				id++
+				t0 := time.Now()
+				x.ex.add(id, 1)
+				if x.threshold > 1 {
+					time.Sleep(100 * time.Millisecond)
+					got := executed([]int{id})
+					if el := time.Since(t0); got > 0 && el < 500*time.Millisecond {
+						t.Fatalf("C11 VIOLATED (a task below the threshold is executed on the periodic flush — default interval 1 s — not before): "+
+							"executor %s executed a single task %v after Add; executors built in this order: %s", x.desc, el, all.String())
+					}
+				}
+				await(x, []int{id}, "every accepted task is passed to the execute callback on the periodic flush (default interval)")
+				st.Class("probe:default-interval")
+			}
+		}
+		for _, x := range insts {
+			wdone := make(chan struct{})
+			go func() { x.ex.wait(); close(wdone) }()
+			select {
+			case <-wdone:
+			case <-time.After(30 * time.Second):
+				t.Fatalf("final Wait of %s did not return within 30 s", x.desc)
+			}
+		}
+		mu.Lock()
+		defer mu.Unlock()
+		for k := 1; k <= id; k++ {
+			if execCnt[k] != 1 {
+				t.Fatalf("task %d was passed to the execute callback %d times (want exactly once); executors: %s", k, execCnt[k], all.String())
+			}
+		}
+		st.NonTrivial(all.String())
+	})
+}
+
+func seq(n int) []int {
+	s := make([]int, n)
+	for i := range s {
+		s[i] = i
+	}
+	return s
+}
